@@ -440,16 +440,26 @@ def unremovable_parts_and_modes(chk):
     pre = [setpriv, "--bounding-set=" + drop, "--inh-caps=" + drop]
     env = dict(os.environ, PYTHONPATH=SRC)
     # (a)
-    cond = ('run_experiment(name="a", run="mkdir $COND_OUT/docker && echo x > $COND_OUT/docker/f; exit 1")\n'
-            + "".join('run_experiment(name="%s", run="echo y > $COND_OUT/g; exit 1")\n' % n for n in ("b", "c", "d"))
-            + 'run_experiment(name="keep", run="echo kept > $COND_OUT/r")\n'
-            + 'combine(name="all", deps=[":b", ":c", ":d", ":a", ":keep"])\n')
-    root = implrun.make_project({"COND": cond})
+    # the output that cannot be removed belongs to a top-level task (cond-out itself is scanned first); the others lie in the
+    # same directory, in a package and in a nested package (seed C13/j: gc stopped after the first directory with a failure)
+    files = {"COND": 'run_experiment(name="a", run="mkdir $COND_OUT/docker && echo x > $COND_OUT/docker/f; exit 1")\n'
+                     'run_experiment(name="b", run="echo y > $COND_OUT/g; exit 1")\n'
+                     'run_experiment(name="keep", run="echo kept > $COND_OUT/r")\n'
+                     'group(name="all", deps=[":b", "//pkg:c", "//pkg/sub:d", ":a", ":keep"])\n',
+             "pkg/COND": 'run_experiment(name="c", run="echo y > $COND_OUT/g; exit 1")\n',
+             "pkg/sub/COND": 'run_experiment(name="d", run="echo y > $COND_OUT/g; exit 1")\n'}
+    cond = files
+    root = implrun.make_project(files)
     implrun.run_cond(["run", "//:all"], root)
     co = os.path.join(root, "cond-out")
-    a_dirs = [d for d in os.listdir(co) if d.startswith("a.task.")]
-    others = sorted(d for d in os.listdir(co) if d.split(".")[0] in ("b", "c", "d") and ".task." in d)
-    kept = sorted(d for d in os.listdir(co) if d.startswith("keep.task."))
+
+    def versions(rel, name):
+        d = os.path.join(co, rel)
+        return sorted(os.path.join(rel, x) if rel else x for x in (os.listdir(d) if os.path.isdir(d) else []) if x.startswith(name + ".task."))
+
+    a_dirs = versions("", "a")
+    others = versions("", "b") + versions("pkg", "c") + versions(os.path.join("pkg", "sub"), "d")
+    kept = versions("", "keep")
     problems = []
     if len(a_dirs) != 1 or len(others) != 3 or len(kept) != 1:
         problems.append("harness: set-up failed (%r %r %r)" % (a_dirs, others, kept))
@@ -458,7 +468,7 @@ def unremovable_parts_and_modes(chk):
         real = subprocess.run(pre + [PY, "-m", "conductor", "gc", "-v"], cwd=root, env=env, capture_output=True, text=True)
         chk.coverage["evaluations"] += 1
         chk.count("read-only outputs", "foreign-owned part")
-        still = sorted(d for d in os.listdir(co) if d in others)
+        still = sorted(d for d in others if os.path.exists(os.path.join(co, d)))
         if "Traceback" in real.stderr:
             problems.append("cond gc died with a traceback: %r" % real.stderr.strip().splitlines()[-1][:200])
         if still:
